@@ -111,6 +111,10 @@ def render(case):
     for n in names_of(case):
         out.append('"%s"' % n)
     out.append('"%s"' % case.get('title', 'T'))
+    if case.get('source') is not None:
+        out.append('"%s"' % case['source'])
+        if case.get('comment') is not None:
+            out.append('"%s"' % case['comment'])
     return '\n'.join(out) + '\n'
 
 
@@ -126,5 +130,6 @@ def digest(obj):
 
 def options_for_constructor(case):
     d = dict(case.get('options') or {})
-    d['rule'] = case['rule']
+    if not case.get('rule_in_file'):       # C17: the rule may come from the ballot file's [droop ...] option alone
+        d['rule'] = case['rule']
     return d
